@@ -40,7 +40,7 @@ func runC04(c *eng.Ctx) {
 	r5 := c.Rule("C04.R5", "B:must-pass", "after combining, t.UpdateMetadata(hookMeta) is passed on every path to handleRunHook (the retried task carries the combined contexts)", 1)
 	if f := r4.NeedFunc(pkgOp + ".(*ShellOperator).taskHandleHookRun"); f != nil {
 		info := f.Pkg.TypesInfo
-		g := p.GraphOf(f)
+		_ = p
 		combine := p.Method(pkgOp, "ShellOperator", "combineBindingContextForHook")
 		combineX := p.Method(pkgOp, "ShellOperator", "CombineBindingContextForHook")
 		allowFailure := p.Field(pkgMeta, "HookMetadata", "AllowFailure")
